@@ -21,7 +21,7 @@ Definition ecode (e : jerr) : Z :=
 Definition tcode (t : tst) : Z * Z :=
   match t with
   | TInit => (0, 0) | TLooked _ => (1, 0) | TMember _ p => (2, p) | TRefused e => (3, ecode e)
-  | TLeft => (4, 0) | THeld _ _ => (5, 0)
+  | TLeft => (4, 0) | TLeaving => (11, 0) | THeld _ _ => (5, 0)
   | TConn CRefused => (6, 0) | TConn (CTo m) => (7, m) | TConn CStranded => (8, 0) | TConn CNoFunc => (9, 0)
   | TDone => (10, 0)
   end.
